@@ -17,6 +17,7 @@ EXPLANATION = (
     "shift(-1), rows kept iff running > 0, label by bit tests, sum of next_time - time per label), the aggregator provenance rule (on every path sum/max/"
     "min/mean/std of a row that keeps its name are aggregated directly from the kernels' dur; 'others' conserves the total; positional cut on the frame "
     "sorted by sum descending with a fresh index; guard shape > num_kernels), the analysed type list and the argument bindings. Structure, not numbers."
+    " Later additions: effect rules (stateless, latch, cross-iteration flow, shared mutable values), two-rank exploration (one sweep and one aggregation per rank)."
 )
 BA = "hta.analyzers.breakdown_analysis"
 STATS = ("sum", "max", "min", "mean", "std")
